@@ -189,11 +189,16 @@ pub struct ConnectSpec {
     pub keep_session: bool,
     pub props: ConnackProps,
     pub io: IoCfg,
+    /// On a resumed connection the broker behaves as if the PUBRECs the client sent on the previous
+    /// connection never reached it (lost with the dead connection): inbound QoS 2 messages still
+    /// waiting for PUBREL are retransmitted as DUP PUBLISH instead of being released.
+    #[serde(default)]
+    pub lost_pubrecs: bool,
 }
 
 impl Default for ConnectSpec {
     fn default() -> Self {
-        Self { handshake: Handshake::Accept, keep_session: true, props: ConnackProps::default(), io: IoCfg::default() }
+        Self { handshake: Handshake::Accept, keep_session: true, props: ConnackProps::default(), io: IoCfg::default(), lost_pubrecs: false }
     }
 }
 
@@ -206,6 +211,12 @@ pub struct PubSpec {
     pub props: Vec<Prop>,
     pub correlate: Option<Vec<u8>>,
     pub cancel: Option<u16>,
+    /// How the payload is handed to `publish`: 0 = byte slice, 1 = a closure that first scribbles
+    /// over the whole buffer it is given and then writes the payload, 2 = `&str` (when the payload
+    /// is valid UTF-8, else a byte slice), 3 = a closure that scribbles over its buffer and then
+    /// fails (the request must be refused with the payload error and leave no trace).
+    #[serde(default)]
+    pub via: u8,
 }
 
 impl PubSpec {
@@ -218,6 +229,7 @@ impl PubSpec {
             props: vec![],
             correlate: None,
             cancel: None,
+            via: 0,
         }
     }
 }
